@@ -127,6 +127,13 @@ protected:
     Action visitForStatement(const ForStatementSyntax*) override;
     Action visitReturnStatement(const ReturnStatementSyntax*) override;
     Action visitExtGNU_AsmOperand(const ExtGNU_AsmOperandSyntax*) override;
+    Action visitGotoStatement(const GotoStatementSyntax*) override;
+    Action visitExtGNU_AsmStatement(const ExtGNU_AsmStatementSyntax*) override;
+    Action visitEnumeratorDeclaration(const EnumeratorDeclarationSyntax*) override;
+    Action visitExtGNU_AsmStatementDeclaration(const ExtGNU_AsmStatementDeclarationSyntax*) override;
+    Action visitExtGNU_Attribute(const ExtGNU_AttributeSyntax*) override;
+    Action visitExtGNU_AsmLabel(const ExtGNU_AsmLabelSyntax*) override;
+    Action visitBitfieldDeclarator(const BitfieldDeclaratorSyntax*) override;
 
     //--------//
     // Common //
